@@ -41,6 +41,13 @@ Section C15.
     forall env, env_ok A env -> forall s, semp complex (env_of sg env) s = semp simple env s.
   Proof. exact (nesting_sound St o_grid o_phi1d o_split o_admixnew o_pulse o_integrate o_remove o_reorder o_fromphi o_fromphi_inb o_mscmd H_T0 H_pulse0). Qed.
 
+  (** a discharged TWO-SIDED nesting obligation (both models instantiated over a common parameter vector, e.g. a complex
+      model with a zero-length epoch against a simple model at unit sizes): for every admissible common vector the two
+      models, each run at its side of the nesting point, compute the same *)
+  Theorem C15_nesting2_sound : forall A sgc sgs complex simple, nests2 A sgc sgs complex simple = true ->
+    forall env, env_ok A env -> forall s, semp complex (env_of sgc env) s = semp simple (env_of sgs env) s.
+  Proof. exact (nesting2_sound St o_grid o_phi1d o_split o_admixnew o_pulse o_integrate o_remove o_reorder o_fromphi o_fromphi_inb o_mscmd H_T0 H_pulse0). Qed.
+
   (** a discharged well-formedness obligation: the unpacking binds exactly the declared names, every
       parameter occurs, no other does, and the result depends on nothing but those entries *)
   Theorem C15_params_match_names_sound : forall n unpacked p, params_match_names n unpacked p = true ->
@@ -74,6 +81,7 @@ End C15.
 Print Assumptions C15_simp_sound.
 Print Assumptions C15_norm_sound.
 Print Assumptions C15_nesting_sound.
+Print Assumptions C15_nesting2_sound.
 Print Assumptions C15_params_match_names_sound.
 Print Assumptions C15_swap_labels_program.
 
@@ -100,3 +108,11 @@ Example C15_nonvacuous :
   nests ex_A_IM ex_sg_IM_pre ex_IM_pre ex_IM = true /\
   nests ex_A_split_mig ex_sg_asym_wrong ex_split_asym_mig ex_split_mig = false.
 Proof. exact ex_nests. Qed.
+
+(** non-vacuity of the two-sided obligation: bottlegrowth_split_mig_sel (nuB,nuF,m,T,Ts,gamma1,gamma2) at T = 0, Ts > 0
+    normalises to split_mig_sel (nu1,nu2,T,m,gamma1,gamma2) at nu1 = nu2 = 1, T = Ts; the same function with gamma1 passed
+    for gamma2 in the first two-population epoch of the branch T < Ts does not *)
+Example C15_nonvacuous_two_sided :
+  nests2 ex_A_bgsm_common ex_sgc_bgsm ex_sgs_bgsm ex_bgsm_sel ex_split_mig_sel = true /\
+  nests2 ex_A_bgsm_common ex_sgc_bgsm ex_sgs_bgsm ex_bgsm_sel_wrong ex_split_mig_sel = false.
+Proof. exact ex_nests2. Qed.
